@@ -59,3 +59,18 @@ pub fn json_arr(items: &[String]) -> String {
     return format!("[{}]", items.join(","));
 }
 
+/// The navigation state of this thread's session as JSON:
+/// `{"pos":[[id,offset]..],"cmds":[..],"markers":[[id,offset]..],"mode":..,"overview":..,"where":[id,offset]}`
+pub fn nav_state() -> String {
+    return crate::navigate::NAVIGATION_STATE.with(|nav| nav.borrow().verif_json());
+}
+
+/// The preference manager of this thread's session as JSON (both maps with YAML type tags, the file paths, the error).
+pub fn prefs_dump() -> String {
+    return crate::speech::SPEECH_RULES.with(|rules| {
+        let rules = rules.borrow();
+        let pm = rules.pref_manager.borrow();
+        return pm.verif_json();
+    });
+}
+
